@@ -290,6 +290,27 @@ def run(index, rep, tier):
             rep.check(ok, "R01.10", enc.qualname, "a return not preceded by the compile step", fn_where(enc, r.stmt), "every return of encode_bipartitions follows the compile step over `%s`" % lst,
                       "encode_bipartitions can return without having mapped the compile function over `%s`" % lst)
 
+    # ---- R01.11
+    with rep.section("R01.11"):
+        rep.rule("R01.11", "compatibility of unrooted splits is decided on one normalisation: Bipartition.is_compatible_with hands is_compatible_bitmasks (a three-cell test, exact only when both masks keep the same taxon on the 0 side) an `other` mask that, for an unrooted bipartition, has been re-normalised against this bipartition's tree leaf set")
+        icw = index.function(BIP + ".is_compatible_with")
+        g = cfg_of(icw)
+        calls = [(nd, c) for nd in g.nodes for c in node_calls(nd) if call_name(c) == "is_compatible_bitmasks"]
+        if len(calls) != 1 or len(calls[0][1].args) < 2:
+            raise AnalysisError("R01.11: is_compatible_with no longer calls is_compatible_bitmasks(m1, m2, fill) once")
+        nd, c = calls[0]
+        m2 = c.args[1]
+        if not isinstance(m2, ast.Name):
+            raise AnalysisError("R01.11: second mask of is_compatible_bitmasks is not a local")
+
+        def renorm(x):
+            return x.kind == "stmt" and isinstance(x.ast, ast.Assign) and norm(x.ast.targets[0]) == m2.id and isinstance(x.ast.value, ast.Call) and call_name(x.ast.value) == "normalize_bitmask" \
+                and any("_tree_leafset_bitmask" in norm(a) or "fill" in norm(a) for a in list(x.ast.value.args) + [k.value for k in x.ast.value.keywords])
+        # on the paths where self._is_rooted is falsy, a re-normalisation of m2 must precede the call
+        ok = g.dominated_by(nd, renorm, follow_exc=False, edge_ok=lambda a, lab, b: not (a.kind == "test" and ((norm(a.ast) in ("self._is_rooted", "self.is_rooted") and lab == "t") or (norm(a.ast) in ("self._tree_leafset_bitmask",) and lab == "f"))))
+        rep.check(ok, "R01.11", icw.qualname, "other mask compared without bringing it to this tree's normalisation", fn_where(icw, c), "is_compatible_with re-normalises the other mask for unrooted bipartitions",
+                  "Bipartition.is_compatible_with passes the other split mask to is_compatible_bitmasks as it is: that test knows three of the four cells (m1&m2, m1&~m2, ~m1&m2) and is exact only when both masks put the same taxon on the 0 side; a query built over the whole namespace (fill = all taxa) is normalised on a taxon that may not be on the tree, so a split that is literally in the tree - {b,c} against ((b,c),(d,e),f) in a namespace a..f - is declared incompatible")
+
     # ---- R01.9
     with rep.section("R01.9"):
         rep.rule("R01.9", "bit-level compatibility has the three-cell normal form: is_compatible_bitmasks answers True exactly when one of m1&m2, m1&~m2, ~m1&m2 is empty (within the fill mask) and never on ~m1&~m2; from_bipartition_encoding hands SPLIT masks to from_split_bitmasks")
@@ -376,7 +397,7 @@ def run(index, rep, tier):
         fi = index.function(BIP + ".is_compatible_with")
         cs = [c for c in calls_in(fi.node) if call_name(c) == "is_compatible_bitmasks"]
         got = [sorted(arg_defs(fi, a)) for a in cs[0].args] if cs else None
-        ok = got is not None and len(got) == 3 and got[0] == ["self._split_bitmask"] and set(got[1]) == {"other", "other._split_bitmask"} and got[2] == ["self._tree_leafset_bitmask"]
+        ok = got is not None and len(got) == 3 and got[0] == ["self._split_bitmask"] and {"other", "other._split_bitmask"} <= set(got[1]) and all(x.startswith("Bipartition.normalize_bitmask(") for x in set(got[1]) - {"other", "other._split_bitmask"}) and got[2] == ["self._tree_leafset_bitmask"]
         rep.check(ok, "R01.6", fi.qualname, "is_compatible_bitmasks(%s)" % got, fn_where(fi), "compatibility compares the two SPLIT masks within this tree's leaf set",
                   "is_compatible_with calls is_compatible_bitmasks(%s) rather than (self split mask, other split mask, tree leafset mask)" % got)
         fi = index.function(BIP + ".is_leafset_nested_within")
